@@ -218,6 +218,17 @@ func checkIOResults(c *Ctx, rule string, f *FC, nr map[string]bool, wantWriteChe
 					walkBlock(x.Else, safe)
 				case *ir.Seq:
 					for _, e := range x.Effs {
+						// `if not ok then <no-return>` as a statement guards everything after it
+						if iff, ok := e.(*ir.If); ok && iff.Else == nil && ir.String(f.Path, iff.Cond) == "not("+okText+")" {
+							guards++
+							if iff.Then == nil || iff.Then.Ret == nil || !panics(iff.Then.Ret, nr) {
+								badGuard = "the failing side of the test of " + okText + " does not reach a no-return diagnostic call"
+							} else if mentionsCall(iff.Then.Ret) {
+								badGuard = "the failing side of the test uses the results of " + call.text
+							}
+							safe = true
+							continue
+						}
 						walk(e, safe)
 					}
 					walk(x.Ret, safe)
